@@ -25,7 +25,7 @@ def DPs(tier):
 
 def cases(tier, seed):
     out = []
-    reps = 1 if tier == 'quick' else 3
+    reps = 1 if tier == 'quick' else 12
     for prog in progs.cat():
         if {'fancy', 'nonunique'} & prog.tags:
             continue        # advanced (list) indexing is outside the property's program class (basic indexing and views)
@@ -38,7 +38,7 @@ def cases(tier, seed):
                 out.append({'kind': 'single', 'seed': s, 'params': {'prog': prog.name, 'D': D, 'P': P,
                                                                      'rec': ['ndarray', 'utpm11', 'utpmDP', 'direct'][int(r.integers(4))],
                                                                      'rec_at_eval': bool(r.integers(2))}})
-    ncomp = 300 if tier == 'quick' else 4000
+    ncomp = 300 if tier == 'quick' else 25000
     for i in range(ncomp):
         s = case_seed('C03', seed, 'comp', i)
         r = np.random.default_rng(s)
